@@ -149,6 +149,10 @@ func (m *Model) Open(p string, flag int, perm uint32) (MOut, *MNode) {
 			if writable || flag&os.O_TRUNC != 0 || flag&os.O_APPEND != 0 {
 				return fail("is a directory"), nil
 			}
+			if flag&os.O_CREATE != 0 {
+				// open(2) refuses O_CREAT on an existing directory (EISDIR), in-memory references open it: accept either, no effect
+				return MOut{OK: true, Amb: true, Why: "O_CREATE on a directory"}, n
+			}
 			return ok(), n
 		}
 		if flag&os.O_TRUNC != 0 && writable {
@@ -492,6 +496,9 @@ func (h *MHandle) writeAt(p []byte, off int64) {
 func (h *MHandle) DoWrite(p []byte) HOut {
 	if !h.Write || h.N.Dir {
 		return HOut{}
+	}
+	if len(p) == 0 {
+		return HOut{OK: true} // no effect at all, not even the move to the end that O_APPEND implies
 	}
 	if h.Append {
 		h.Pos = int64(len(h.N.Data))
